@@ -247,6 +247,20 @@ def run(ctx):
             ctx.violation("INV-FLAG", "%s|%s" % (cfg, w), "Parser::%s writes the split-exhausted flag; only the five split methods may" % w,
                           methods[w].file())
         ctx.instance("INV-FLAG", cfg, sample={"writers": sorted(writers)})
+        # a fresh parser has yielded nothing yet: every constructor starts with the flag clear (the protocol's initial state)
+        for name, b in methods.items():
+            if b.arg_count >= 1 and "Parser<" in b.local_ty(1):
+                continue
+            if "Parser<" not in (b.rec.get("sig_output", "") or "") or "Result<" in (b.rec.get("sig_output", "") or ""):
+                continue
+            for p in sym.paths_of(b, prog):
+                if p.kind != "return" or not isinstance(p.value, tuple):
+                    continue
+                fl = sym.mk_field(p.value, F["yielded_last_split"])
+                if fl != ("bool", False):
+                    ctx.violation("INV-FLAG", "%s|%s|initial" % (cfg, name), "Parser::%s builds a parser whose split-exhausted flag is %s: the first "
+                                  "split of a fresh parser would report SplitExhausted" % (name, show(fl)), b.file())
+            ctx.instance("INV-FLAG", "%s|%s|initial" % (cfg, name), sample={"constructor": name})
 
         # ---------------- StdParser::parse_with delegation -------------------------------
         for b in prog.by_key.get("konst::parsing::get_parser::StdParser::parse_with", []):
@@ -280,6 +294,7 @@ def run(ctx):
     ctx.floor("D3-DIGIT", 12)
     ctx.floor("D3-SIGN", 12)
     ctx.floor("TAB-BOOL", 1)
+    ctx.floor("INV-FLAG", 3)
 
 
 def _cmp(ctx, rule, cfg, name, b, paths, rows, vdom, constraints=()):
